@@ -38,7 +38,7 @@ def make_jobs(ctx: Ctx, count: int, lind: bool = False) -> list[dict]:
         if lind:
             n = rng.choice([1, 2, 2, 3, 3, 4] + ([] if ctx.quick else [5]))
         wf = scen.WF_KINDS[i % len(scen.WF_KINDS)]
-        phase = scen.PHASE_KINDS[(i // 2) % 3]
+        phase = scen.PHASE_KINDS[(i // 2) % 4]
         dmm = scen.DMM_KINDS[(i // 3) % 3]
         slm = scen.SLM_KINDS[(i // 5) % 2]
         modulation = (i % 11 == 7)
@@ -147,7 +147,7 @@ def run(ctx: Ctx) -> None:
         "state budget: 10*tol per step + 64*eps*||H||*t rounding; observable budget 2*||O||*state budget; continuous-time budget: discretisation error of an ideal midpoint scheme on the same grid + Krylov budget",
         "strata restricted to dt >= 1 and no evaluation time inside the last ns while the C22 defect (negative extrapolated amplitude) is unrepaired",
     ]
-    n = ctx.pick(120, 2500)
+    n = ctx.pick(120, 800)
     jobs = make_jobs(ctx, n)
     results = pmap(sv_worker, jobs)
     evaluate(ctx, jobs, results, "sv")
